@@ -59,6 +59,8 @@ def _poly_stream(ctx, n):
                         continue
                     nn = len(c["xs"])
                     c["mode"] = mode
+                    if mode == "plot_fit":
+                        c["xrange"] = None          # Plot.fit forwards `xrange` to the drawn curve too and fails (reported)
                     c["yerr"] = None if ypat == "none" else (rng.randrange(1, 17) / 8.0 if ypat == "common"
                                                                 else [rng.randrange(1, 25) / 8.0 for _ in range(nn)])
                     if fc.well_posed_poly(c):
@@ -204,6 +206,8 @@ def correspondence(ctx):
 def check_poly_oracle(case, obs=None):
     """exact weighted least squares over the points with low <= x < high; parameters highest power first"""
     obs = obs or fc.run_case(case)
+    if case.get("malformed") in ("lo>hi", "badlen", "nonreal"):
+        return None if obs["exn"] is not None else "a fit request with an invalid x-range ({}) was accepted".format(case["malformed"])
     if obs["exn"] is not None:
         if case.get("malformed"):
             return None
@@ -240,6 +244,8 @@ def chi2_ref(model, params, xs, ys, ss):
 
 def check_curve_oracle(case, obs=None):
     obs = obs or fc.run_case(case)
+    if case.get("malformed") in ("lo>hi", "badlen", "nonreal"):
+        return None if obs["exn"] is not None else "a fit request with an invalid x-range ({}) was accepted".format(case["malformed"])
     if obs.get("exn_type") == "RuntimeError":
         return None
     if obs["exn"] is not None:
